@@ -253,6 +253,21 @@ def flags(ctx):
             ok = all('mycls.__mro__' in src(v, 300) for v in st)
         ctx.check(ok, f'{init.qualname}:automatic property {attr}', init.node, f'{attr} computed from the implementing class',
                   f'{attr} is not computed from the implementing class (skipping the wrapper class)', init)
+    # the selecting conditions of the two comprehensions, with their polarity
+    for t, v, st in attr_stores(init.node):
+        if dotted(t.value) != 'self' or t.attr not in ('interface_classes', 'features'):
+            continue
+        comps = [x for x in ast.walk(v) if isinstance(x, ast.ListComp)] if v is not None else []
+        conds = [compare_ops(c) for x in comps for g in x.generators for c in g.ifs]
+        flat = [tr for cs in conds for tr in cs]
+        if t.attr == 'features':
+            ok = any(op == 'in' and l == 'Feature' and r.endswith('__bases__') for l, op, r in flat)
+            ctx.check(ok, f'{init.qualname}:features are the classes with Feature as a direct base', st, '`Feature in b.__bases__`',
+                      f'the features list is selected by {flat}: it does not name exactly the mixins derived directly from Feature', init)
+        else:
+            ok = any(op == 'in' and r == 'SECoP_BASE_CLASSES' for l, op, r in flat) and isinstance(v, ast.Subscript) and src(v.slice) == ':1'
+            ctx.check(ok, f'{init.qualname}:interface class is the first SECoP base class of the MRO', st, '`[... if b.__name__ in SECoP_BASE_CLASSES][:1]`',
+                      f'interface_classes is built as `{src(v)}`: not the most specific SECoP base class of the implementing class', init)
     # these three are ordinary settable properties, so a configuration may name them: the computed value has to be stored
     # AFTER the configured properties were applied (the last store wins)
     cfgi = CFG(init.node, m, init.module)
@@ -407,3 +422,132 @@ def writable_by_description_means_writable(ctx):
               'instance by the configuration and nothing checks that write_<p> exists then: the description shows readonly=false, the '
               'dispatcher passes its readonly test and `getattr(moduleobj, "write_" + pname)` raises AttributeError - the client gets an '
               'InternalError for every change', hook)
+
+
+def _truth(test):
+    neg = False
+    while isinstance(test, ast.UnaryOp) and isinstance(test.op, ast.Not):
+        neg = not neg
+        test = test.operand
+    return test, neg
+
+
+@rule('C06.R1b', min_instances=8)
+def structure_report_is_complete_and_selects_by_export(ctx):
+    """get_descriptive_data / export_accessibles / add_module, with the polarity of every export test: unexported modules and
+    accessibles are the ones skipped, every exported module gets its entry (accessibles + exported module properties), the
+    node level carries equipment_id / firmware / description, an unknown module or accessible is refused, and the report is
+    returned on every normal exit"""
+    m = ctx.m
+    gd = m.method(SN, 'get_descriptive_data', inherited=False)
+    ctx.analysed(gd)
+    cfg = CFG(gd.node, m, gd.module)
+    loops = [n for n in body_walk(gd.node) if isinstance(n, ast.For) and src(n.iter) == 'self.export']
+    if not loops:
+        raise AnchorMissing('loop over self.export not found in get_descriptive_data')
+    loop = loops[0]
+    stores = [n for n in walk_local(loop) if isinstance(n, ast.Assign) and any(isinstance(t, ast.Subscript) and src(t.slice) == src(loop.target) for t in n.targets)]
+    ctx.check(bool(stores), f'{gd.qualname}:every exported module gets its entry', loop, f'modules[{src(loop.target)}] = <description>',
+              'the loop over the exported modules stores no entry: the report lists no modules', gd)
+    for t in cfg.nodes:
+        if t.kind != 'test':
+            continue
+        core, neg = _truth(t.ast)
+        if isinstance(core, ast.Attribute) and core.attr == 'export' and any(t.ast is x.test for x in walk_local(loop) if isinstance(x, ast.If)):
+            # the store must lie on the side where .export is true
+            side = 'F' if neg else 'T'
+            sids = {i for s in stores for i in cfg.node_of(s)}
+            on = cfg.reach([t.id], labels={side}, avoid=[t.id] + cfg.ids(loop))
+            off = cfg.reach([t.id], labels={'T' if side == 'F' else 'F'}, avoid=[t.id] + cfg.ids(loop))
+            ctx.check(sids <= on and not (sids & off), f'{gd.qualname}:unexported modules are the ones skipped', t.ast, f'`{src(t.ast)}`',
+                      f'`{src(t.ast)}`: the entry is stored on the side where the module is NOT exported', gd)
+    descs = [n for n in walk_local(loop) if isinstance(n, ast.Assign) and isinstance(n.value, ast.Dict) and
+             any(isinstance(k, ast.Constant) and k.value == 'accessibles' for k in n.value.keys)]
+    okd = bool(descs) and any(call_attr(c) == 'export_accessibles' for d in descs for c in calls_in(d))
+    ctx.check(okd, f'{gd.qualname}:module entry lists its accessibles', loop, "{'accessibles': self.export_accessibles(...)}",
+              "the module entry is not built with 'accessibles': export_accessibles(<module>)", gd)
+    upd = [c for c in calls_in(loop) if call_attr(c) == 'update' and c.args and 'exportProperties' in src(c.args[0])]
+    ctx.check(bool(upd), f'{gd.qualname}:module entry carries the exported module properties', loop, 'mod_desc.update(module.exportProperties())',
+              'the exported module properties (description, interface_classes, features, implementation ...) are not merged into the module entry', gd)
+    # all normal exits return the report
+    badret = [cfg.nodes[a].ast for a, lab in cfg.pred.get(cfg.exit, []) if lab != 'exc' and not (
+        isinstance(cfg.nodes[a].ast, ast.Return) and cfg.nodes[a].ast.value is not None and not isinstance(cfg.nodes[a].ast.value, ast.Constant))]
+    ctx.check(not badret, f'{gd.qualname}:returns the report', gd.node, 'every normal exit returns the report', 'a normal exit returns nothing', gd)
+    # node level entries
+    keys = {src(t.slice) for n in body_walk(gd.node) if isinstance(n, ast.Assign) for t in n.targets if isinstance(t, ast.Subscript) and src(t.value) == 'result'}
+    need = {"'equipment_id'", "'firmware'", "'description'"}
+    ctx.check(need <= keys, f'{gd.qualname}:node level identity', gd.node, f'{sorted(need)} are stored', f'node level keys missing: {sorted(need - keys)}', gd)
+    # unknown names are refused
+    for exc in ('NoSuchModuleError', 'NoSuchParameterError'):
+        rs = [n for n in body_walk(gd.node) if isinstance(n, ast.Raise) and n.exc is not None and exc in src(n.exc)]
+        ctx.check(bool(rs), f'{gd.qualname}:{exc} for an unknown name', gd.node, 'raised', f'no {exc} is raised: a describe request for an unknown name is answered', gd)
+    # export_accessibles: polarity of both tests
+    ea = m.method(SN, 'export_accessibles', inherited=False)
+    ctx.analysed(ea)
+    cfge = CFG(ea.node, m, ea.module)
+    st = [n for n in body_walk(ea.node) if isinstance(n, ast.Assign) and any(isinstance(t, ast.Subscript) and 'export' in src(t.slice) for t in n.targets)]
+    sids = {i for s in st for i in cfge.node_of(s)}
+    for t in cfge.nodes:
+        if t.kind != 'test':
+            continue
+        core, neg = _truth(t.ast)
+        want = None
+        if isinstance(core, ast.Attribute) and core.attr == 'export':
+            want = not neg
+        for l, op, r in compare_ops(t.ast):
+            if r == 'self.export' and op in ('in', 'notin'):
+                want = (op == 'in')
+        if want is None:
+            continue
+        side = 'T' if want else 'F'
+        on = cfge.reach([t.id], labels={side}, avoid=[t.id])
+        off = cfge.reach([t.id], labels={'F' if side == 'T' else 'T'}, avoid=[t.id])
+        ctx.check(bool(sids) and sids <= on and not (sids & off - on), f'{ea.qualname}:`{src(t.ast)}` selects the exported side', t.ast, 'entries are stored on the exported side',
+                  f'`{src(t.ast)}`: the accessibles listed are the ones that are NOT exported', ea)
+    badret = [cfge.nodes[a].ast for a, lab in cfge.pred.get(cfge.exit, []) if lab != 'exc' and not (
+        isinstance(cfge.nodes[a].ast, ast.Return) and cfge.nodes[a].ast.value is not None and not isinstance(cfge.nodes[a].ast.value, ast.Constant))]
+    ctx.check(not badret, f'{ea.qualname}:returns a mapping', ea.node, 'every normal exit returns a mapping', 'a normal exit returns nothing', ea)
+    # add_module
+    am = m.method(SN, 'add_module', inherited=False)
+    ctx.analysed(am)
+    cfga = CFG(am.node, m, am.module)
+    apps = {i for c in calls_in(am.node) if call_attr(c) == 'append' and 'self.export' in src(c.func) for i in cfga.node_of(c)}
+    for t in cfga.nodes:
+        if t.kind == 'test':
+            core, neg = _truth(t.ast)
+            if isinstance(core, ast.Attribute) and core.attr == 'export':
+                side = 'F' if neg else 'T'
+                ctx.check(bool(apps) and apps <= cfga.reach([t.id], labels={side}, avoid=[t.id]), f'{am.qualname}:exported modules are the ones listed', t.ast,
+                          'appended on the exported side', f'`{src(t.ast)}`: the export list receives the modules that are NOT exported', am)
+    reg = [n for n in body_walk(am.node) if isinstance(n, ast.Assign) and any(isinstance(t, ast.Subscript) and src(t.value) == 'self.modules' for t in n.targets)]
+    ctx.check(bool(reg), f'{am.qualname}:module registered', am.node, 'self.modules[name] = module', 'the module is not stored in self.modules', am)
+
+
+@rule('C06.R3c', min_instances=3)
+def read_path_refusals_and_constant_side(ctx):
+    """_getParameterValue: unknown module / parameter are refused (polarity included), the described constant is returned
+    exactly on the side where the parameter has a constant, the driver read on the other side"""
+    from sa.rules import c04
+    m = ctx.m
+    f = m.method(D, '_getParameterValue', inherited=False)
+    ctx.analysed(f)
+    cfg = CFG(f.node, m, f.module)
+    rets = [i for n in body_walk(f.node) if isinstance(n, ast.Return) for i in cfg.ids(n)]
+    c04._refusal(ctx, f, cfg, rets, lambda s: s.endswith(' is None') and 'module' in s, 'NoSuchModuleError', 'module-exists refusal', '<module> is None')
+    c04._refusal(ctx, f, cfg, rets, lambda s: s.endswith(' is None') and 'module' not in s and 'constant' not in s, 'NoSuchParameterError',
+                 'parameter-exists refusal', '<pobj> is None')
+    ct = [t for t in cfg.nodes if t.kind == 'test' and c04._polarity(t.ast)[0].endswith('.constant is None')]
+    if not ct:
+        ctx.bad(f'{f.qualname}:constant side', f.node, 'no test of pobj.constant: a constant parameter reads as the cached default', f)
+        return
+    for t in ct:
+        neg = c04._polarity(t.ast)[1]           # canonical `constant is None`; neg => written test is true when a constant exists
+        has_const = 'T' if neg else 'F'
+        cret = {i for n in body_walk(f.node) if isinstance(n, ast.Return) and n.value is not None and '.constant' in src(n.value) for i in cfg.ids(n)}
+        reads = {i for c in calls_in(f.node) if isinstance(c.func, ast.Call) and dotted(c.func.func) == 'getattr' and 'read_' in src(c.func) for i in cfg.node_of(c)}
+        on = cfg.reach([t.id], labels={has_const}, avoid=[t.id])
+        off = cfg.reach([t.id], labels={'F' if has_const == 'T' else 'T'}, avoid=[t.id])
+        ctx.check(bool(cret) and cret <= on and not (cret & off - on) and bool(reads) and reads <= off and not (reads & on - off),
+                  f'{f.qualname}:constant side', t.ast, 'the constant is returned where it exists, the driver is read otherwise',
+                  f'`{src(t.ast)}`: the described constant is returned on the side where the parameter has none (None is sent), and constant parameters are read '
+                  'from the driver', f)
